@@ -285,6 +285,12 @@ def _reset(ctx, N):
     cases.append(("SparseKDE", "skmatter.neighbors.SparseKDE", {"descriptors": arr("descriptors", "D", "F"), "weights": arr("weights", "D")}, ((arr("grid1", "G1", "F"),), {}), ((arr("grid", "G", "F"),), {}), []))
     cases.append(("QuickShift", "skmatter.clustering.QuickShift", {"dist_cutoff_sq": arr("cutoffs", "N")}, ((arr("X1", "N1", "F"),), {"samples_weight": arr("w1", "N1")}), ((arr("X", "N", "F"),), {"samples_weight": arr("w", "N")}), []))
     cases.append(("DirectionalConvexHull", "skmatter.sample_selection.DirectionalConvexHull", {}, ((arr("X1", "N1", "M1"), arr("y1", "N1")), {}), ((arr("X", "N", "M"), arr("y", "N")), {}), []))
+    # a random first pick with an integer seed: every cold fit draws the same pick (the generator is rebuilt from the seed)
+    for pkg, S in (("feature", "M"), ("sample", "N")):
+        for cname in ("FPS", "PCovFPS"):
+            extra = {"mixing": scalar("alpha", 0, 1, False, True)} if cname == "PCovFPS" else {}
+            cases.append((f"{pkg}.{cname}[initialize=random]: (X1,y1) then (X,y)", f"skmatter.{pkg}_selection.{cname}", dict(extra, n_to_select=integer("S"), initialize="random", random_state=0), ((arr("X1", "N1", "M1"), arr("y1", "N1", "P1")), {}), ((arr("X", "N", "M"), arr("y", "N", "P")), {}), [("S", "<=", S)]))
+    cases.append(("VoronoiFPS[initialize=random]: (X1,y1) then (X)", "skmatter.sample_selection.VoronoiFPS", {"n_to_select": integer("S"), "full_fraction": scalar("ff", 0, 1, True, False), "initialize": "random", "random_state": 0}, ((arr("X1", "N1", "M1"), arr("y1", "N1", "P1")), {}), ((arr("X", "N", "M"),), {}), [("S", "<=", "N")]))
     # other data of the *same* size: nothing sized like the data may be carried over either
     cases.append(("QuickShift[Gabriel shells]: other points, same number", "skmatter.clustering.QuickShift", {"gabriel_shell": integer("shell")}, ((arr("X1", "N", "F"),), {"samples_weight": arr("w1", "N")}), ((arr("X", "N", "F"),), {"samples_weight": arr("w", "N")}), []))
     cases.append(("QuickShift[cut-off]: other points, same number", "skmatter.clustering.QuickShift", {"dist_cutoff_sq": arr("cutoffs", "N")}, ((arr("X1", "N", "F"),), {"samples_weight": arr("w1", "N")}), ((arr("X", "N", "F"),), {"samples_weight": arr("w", "N")}), []))
